@@ -159,6 +159,12 @@ void ModeOffset(Tape& t, Outcome& o) {
     double band2 = std::abs(d2) * (1 - std::cos(M_PI / seg)) + guard;
     for (auto& p : pts) {
       if (oracle::EdgeDist(pr, p) <= band + band2 || oracle::EdgeDist(p2, p) <= band + band2) continue;
+      if (Inside(pr, p) == 1 && Inside(p2, p) != 1 && jt == JoinType::Bevel && !convexInput) {
+        // same root cause as the slab clause (F10): the bevel chord at an acute
+        // vertex moves with delta and can uncover points a smaller delta covered
+        o.known("F10-bevel-slab", "offset:monotone-bevel", "bevel chord at an acute vertex breaks monotonicity in delta");
+        break;
+      }
       if (Inside(pr, p) == 1 && Inside(p2, p) != 1) { o.fail("offset:monotone", verif::fmt("point (%.17g,%.17g) inside Offset(%.9g) but outside Offset(%.9g)", p.x, p.y, delta, d2)); return; }
     }
   }
